@@ -380,7 +380,7 @@ where
                     let os_ipc_shared_memory_regions;
                     let os_ipc_channels;
                     {
-                        bincode::serialize_into(&mut bytes, &data)?;
+                        let result = bincode::serialize_into(&mut bytes, &data);
                         os_ipc_channels = mem::replace(
                             &mut *os_ipc_channels_for_serialization.borrow_mut(),
                             old_os_ipc_channels,
@@ -389,6 +389,9 @@ where
                             &mut *os_ipc_shared_memory_regions_for_serialization.borrow_mut(),
                             old_os_ipc_shared_memory_regions,
                         );
+                        /* Error check comes after doing cleanup,
+                         * since we need the cleanup both in the success and the error cases. */
+                        result?;
                     };
                     Ok(self.os_sender.send(
                         &bytes[..],
